@@ -373,7 +373,7 @@ fn do_op<T: ElemT>(m: &mut Tab<T>, w: &[&str], chk: &mut Vec<String>, held: &mut
     let n = |i: usize| parse_u64(w[i]);
     match w[0] {
         "twithcap" => {
-            *m = HashTable::with_capacity_in(n(1) as usize, Ledger);
+            *m = HashTable::with_capacity_in(n(1) as usize, Ledger::fresh());
             "unit".into()
         }
         "tfind" => {
@@ -646,7 +646,7 @@ fn do_op<T: ElemT>(m: &mut Tab<T>, w: &[&str], chk: &mut Vec<String>, held: &mut
         "tinto_par_iter" => {
             let pool = pool_of(n(1));
             let want = sorted_elems(m);
-            let old = std::mem::replace(m, HashTable::new_in(Ledger));
+            let old = std::mem::replace(m, HashTable::new_in(Ledger::fresh()));
             let got: Vec<T> = pool.install(|| old.into_par_iter().collect());
             let mut l: Vec<(u64, u64, u64)> = got.iter().map(|e| (e.id(), e.stamp(), e.val())).collect();
             l.sort();
@@ -709,7 +709,7 @@ fn do_op<T: ElemT>(m: &mut Tab<T>, w: &[&str], chk: &mut Vec<String>, held: &mut
             // owning iterator: take n with next() (len / size_hint exact at every step), drop the rest
             let take = n(1) as usize;
             let total = m.len();
-            let old = std::mem::replace(m, HashTable::new_in(Ledger));
+            let old = std::mem::replace(m, HashTable::new_in(Ledger::fresh()));
             let mut it = old.into_iter();
             let mut got: Vec<T> = Vec::new();
             for j in 0..take {
@@ -738,7 +738,7 @@ fn do_op<T: ElemT>(m: &mut Tab<T>, w: &[&str], chk: &mut Vec<String>, held: &mut
         "tcapacity" => format!("num {}", m.capacity()),
         "tallocsize" => format!("num {}", m.allocation_size()),
         "tdrop" => {
-            let old = std::mem::replace(m, HashTable::new_in(Ledger));
+            let old = std::mem::replace(m, HashTable::new_in(Ledger::fresh()));
             drop(old);
             "unit".into()
         }
@@ -747,7 +747,7 @@ fn do_op<T: ElemT>(m: &mut Tab<T>, w: &[&str], chk: &mut Vec<String>, held: &mut
 }
 
 pub fn run_table<T: ElemT>(lines: &[String], out: &mut String) {
-    let mut m: Tab<T> = HashTable::new_in(Ledger);
+    let mut m: Tab<T> = HashTable::new_in(Ledger::fresh());
     let (tsize, calign) = Tab::<T>::verif_table_layout();
     let _ = writeln!(
         out,
